@@ -33,8 +33,12 @@ from pybrops.breed.prot.sel.transfn import trans_ndpt_to_vec_dist as transfn_tra
 ID = "C19"
 TECHNIQUE = ("complete small-scope input enumeration (every point sequence over a value grid x every weight / sign / "
              "preference / constraint-violation vector) on the real functions against an O(n^2) dominance definition "
-             "and a Fraction-exact geometric definition, with explicit order / rescaling / translation metamorphic comparisons")
-RULE = ("F: one case = (point sequence, weight vector) run through is_pareto_efficient in mask form and index form; "
+             "and a Fraction-exact geometric definition, with explicit order / rescaling / translation metamorphic comparisons, an "
+             "inputs-untouched oracle on every array argument and short call histories on one caller-owned array")
+RULE = ("F: one case = (point sequence, weight vector) run as a call history on ONE caller-owned point matrix (input form rotating "
+        "over float64 C-order / int64 or float32 / Fortran order / non-contiguous view) and one weight array: mask form, index form, "
+        "and on the first order of every multiset the mask form again under positively rescaled weights; after every call the "
+        "caller's arrays must be untouched and every answer must be what the reference (= a fresh array) gives; "
         "sequences are ALL orders of ALL multisets of n grid points; a sequence is non-trivial when n >= 2 (some enumerated "
         "sign vector then makes one point dominate or equal another, so the filter must drop something); distinct by "
         "(grid, sequence); quick tier only: 3-objective fronts of >= 3 points go through the transformations in sorted and reversed "
@@ -51,6 +55,9 @@ ASSUME = ["point coordinates, weights, preference components and translations ar
           "(x - min) times any finite scale gives this)",
           "argument roles of the two trans_ndpt_to_vec_dist functions are the documented ones (2nd argument = objective "
           "signs, 3rd = the preference vector)",
+          "integer, float32, Fortran-ordered and non-contiguous point matrices are valid numpy.ndarray arguments; a function of this "
+          "family must not modify any array the caller passed in (points, weights, signs, preference vector) — mask/index agreement, "
+          "repeatability and rescaling invariance of the property are stated about the caller's array, which must therefore survive a call",
           "mc/compat.py restores removed numpy names only"]
 
 # ---------------------------------------------------------------------------- alphabets (VERIF_SEED rotates values only)
@@ -202,12 +209,67 @@ class W:
         self.canon = [min(b for b in range(G.base) if self.GE[a][b] and self.GE[b][a]) for a in range(G.base)]
 
 
+FORMS = ("f8C", "alt", "f8F", "f8view")      # "alt" = int64 when the grid is integral, float32 otherwise
+
+
+def make_form(G, pristine, form):
+    """The caller's point matrix in one of the input forms (dtype / memory layout alphabet)."""
+    if form == "f8C":
+        return pristine.copy()
+    if form == "f8F":
+        return numpy.asfortranarray(pristine)
+    if form == "f8view":                       # non-contiguous float64 view into a larger array
+        n, k = pristine.shape
+        big = numpy.full((2 * n, k + 1), 7.5)
+        big[::2, :k] = pristine
+        return big[::2, :k]
+    if all(float(v) == int(v) for v in G.vals):
+        return pristine.astype("int64")
+    return pristine.astype("float32")
+
+
+def untouched(sig, what, arr, pristine, desc):
+    """Inputs-untouched oracle: an argument array the caller passed in still holds the caller's values."""
+    if arr.shape != pristine.shape or not numpy.array_equal(numpy.asarray(arr, dtype="float64"), pristine):
+        raise Violation(sig + "input-mutated",
+                        f"{desc}: the caller's {what} array was modified in place by the call: now {numpy.asarray(arr).tolist()}, "
+                        f"was {pristine.tolist()}")
+
+
+def f_history(G, seq, w, parity, form, w_next):
+    """One case = a short call history on ONE caller-owned point matrix and ONE weight array:
+    mask form, then index form (same weights twice), then (if w_next) the mask form with positively rescaled weights.
+    After every call the caller's arrays must be untouched; every answer is judged by the reference, which is what a
+    fresh array would give."""
+    pristine = G.fl[list(seq)]
+    A = make_form(G, pristine, form)
+    wa = w.arr.copy()
+    desc = f"points {pristine.tolist()} ({form}, dtype {A.dtype}) wt {w.lst}"
+    mask = is_pareto_efficient(A, wa, True) if parity else is_pareto_efficient(A, wa)
+    untouched(PF, "fitness", A, pristine, desc + " [mask form]")
+    untouched(PF, "weight", wa, w.arr, desc + " [mask form]")
+    index = is_pareto_efficient(A, wa, return_mask=False)
+    untouched(PF, "fitness", A, pristine, desc + " [index form]")
+    untouched(PF, "weight", wa, w.arr, desc + " [index form]")
+    nm, e = f_oracle(G, seq, w, mask, index)
+    if w_next is not None:
+        wb = w_next.arr.copy()
+        mask3 = is_pareto_efficient(A, wb, True)
+        untouched(PF, "fitness", A, pristine, desc + f" [then wt {w_next.lst}]")
+        untouched(PF, "weight", wb, w_next.arr, desc + f" [then wt {w_next.lst}]")
+        index3 = numpy.flatnonzero(mask3) if isinstance(mask3, numpy.ndarray) and mask3.dtype == numpy.bool_ else numpy.array([-1])
+        nm3, e3 = f_oracle(G, seq, w_next, mask3, index3)
+        if e3 != e:
+            raise Violation(PF + "history-rescaled-weights",
+                            f"{desc}: on the same array, efficient vectors {_vecs(G, w, e)} under wt {w.lst} but {_vecs(G, w, e3)} "
+                            f"under the positively rescaled wt {w_next.lst}")
+    return nm, e
+
+
 def f_observe(G, seq, w, form):
     fmat = G.fl[list(seq)]
     if form == "mask":
         return is_pareto_efficient(fmat, w.arr.copy(), True)
-    if form == "mask-default":
-        return is_pareto_efficient(fmat, w.arr.copy())
     return is_pareto_efficient(fmat, w.arr.copy(), return_mask=False)
 
 
@@ -256,23 +318,18 @@ def _vecs(G, w, e):
     return sorted([float(s * x) for s, x in zip(w.sg, G.pts[q])] for q in e)
 
 
-def f_case(ctx, G, seq, w, parity):
+def f_case(ctx, G, seq, w, parity, form="f8C", w_next=None):
     """Run one (sequence, weight) case; returns (efficient vector set, number marked) or (None, None) on violation."""
     ctx.evaluations += 1
+    ncall = 2 if w_next is None else 3
     try:
-        mask = f_observe(G, seq, w, "mask" if parity else "mask-default")
-        index = f_observe(G, seq, w, "index")
-        ctx.transitions += 2
-        nm, e = f_oracle(G, seq, w, mask, index)
+        nm, e = f_history(G, seq, w, parity, form, w_next)
+        ctx.transitions += ncall
     except Exception:
         # slow path: let Ctx.guard classify (Violation or library exception on a valid input)
-        case = dict(layer="F", grid=G.name, seq=list(seq), wt=w.lst, parity=parity, seed=ctx.seed)
-
-        def go():
-            m = f_observe(G, seq, w, "mask" if parity else "mask-default")
-            ix = f_observe(G, seq, w, "index")
-            f_oracle(G, seq, w, m, ix)
-        ok = ctx.guard(go, case=case, sig_prefix=PF)
+        case = dict(layer="F", grid=G.name, seq=list(seq), wt=w.lst, parity=parity, form=form,
+                    wt_next=None if w_next is None else w_next.lst, seed=ctx.seed)
+        ok = ctx.guard(lambda: f_history(G, seq, w, parity, form, w_next), case=case, sig_prefix=PF)
         assert not ok, "non-deterministic observation"
         return None, None
     ctx.traces += 1
@@ -289,6 +346,7 @@ def run_F(spec, ctx):
     ocache = set()
     ndrop = 0
     nmust = 0
+    nform = 0
     for ms in ms_all:
         perms = R.unique_perms(ms)
         for seq in perms:
@@ -306,10 +364,17 @@ def run_F(spec, ctx):
                 nmust += len(grp) * len(perms)       # reference: some point is dominated, the filter has to drop it
             if sum(1 for q in uniq if not any(DOM0[r][q] for r in uniq)) > 1:
                 ctx.flag("F:front-with-several-points")
-            for w in grp:
-                for seq in perms:
+            for wi, w in enumerate(grp):
+                for pi, seq in enumerate(perms):
                     parity ^= 1
-                    e, nm = f_case(ctx, G, seq, w, parity)
+                    nform += 1
+                    form = FORMS[nform % 4]
+                    # "weights, then rescaled weights" on the same array: first order of every multiset
+                    w_next = grp[(wi + 1) % len(grp)] if (pi == 0 and len(grp) > 1) else None
+                    ctx.count("F:form:" + form)
+                    if w_next is not None:
+                        ctx.count("F:histories-with-rescaled-weights")
+                    e, nm = f_case(ctx, G, seq, w, parity, form, w_next)
                     if e is None:
                         continue
                     if nm < n:
@@ -384,17 +449,25 @@ def _st(G, s):
 
 
 def d_call(o1, cv1, o2, cv2, npfloat):
-    a1 = numpy.array(o1, dtype="float64")
-    a2 = numpy.array(o2, dtype="float64")
-    if npfloat:
-        return dominates(a1, numpy.float64(cv1), a2, numpy.float64(cv2))
-    return dominates(a1, float(cv1), a2, float(cv2))
+    """dominates() called twice on the same argument objects: inputs untouched, same answer."""
+    p1 = numpy.array(o1, dtype="float64")
+    p2 = numpy.array(o2, dtype="float64")
+    a1, a2 = p1.copy(), p2.copy()
+    c1, c2 = (numpy.float64(cv1), numpy.float64(cv2)) if npfloat else (float(cv1), float(cv2))
+    r = dominates(a1, c1, a2, c2)
+    desc = f"dominates({o1}, {cv1}, {o2}, {cv2})"
+    untouched(PD, "obj1", a1, p1, desc)
+    untouched(PD, "obj2", a2, p2, desc)
+    r2 = dominates(a1, c1, a2, c2)
+    if isinstance(r, (bool, numpy.bool_)) and bool(r2) != bool(r):
+        raise Violation(PD + "history-repeat", f"{desc} answered {bool(r)} and then {bool(r2)} on the same arguments")
+    return r
 
 
 def d_case(ctx, case, box=None):
     o1, cv1, o2, cv2 = case["o1"], case["cv1"], case["o2"], case["cv2"]
     r = d_call(o1, cv1, o2, cv2, case["npfloat"])
-    ctx.transitions += 1
+    ctx.transitions += 2
     require(isinstance(r, (bool, numpy.bool_)), PD + "return-type", f"dominates returned {type(r).__name__}")
     if box is not None:
         box["raw"] = bool(r)
@@ -438,9 +511,27 @@ def t_scaled(G, seq, sign):
     return rows, [sum(a * a for a in r) for r in rows], const
 
 
-def t_check(name, fn, G, seq, P, s, v, t, exp, const, sign, pref):
-    d = fn(P.copy(), s.copy(), v.copy())
-    d2 = fn(P + t, s.copy(), v.copy())
+def t_check(name, fn, G, seq, P, s, v, t, exp, const, sign, pref, form="f8C", repeat=False):
+    """One case = a call history on caller-owned arrays: the front, then the translated front with the SAME sign and
+    preference array objects, then (repeat) the first front again; inputs must be untouched after every call."""
+    desc = f"front {_pts(G, seq)} ({form}) signs {list(map(float, sign))} preference {list(map(float, pref))}"
+    P1 = make_form(G, P, form)
+    s1, v1 = s.copy(), v.copy()
+    d = fn(P1, s1, v1)
+    untouched(name + ":", "point", P1, P, desc)
+    untouched(name + ":", "sign/weight", s1, s, desc)
+    untouched(name + ":", "preference", v1, v, desc)
+    Pt = P + t
+    P2 = Pt.copy() if form == "alt" else make_form(G, Pt, form)
+    d2 = fn(P2, s1, v1)
+    untouched(name + ":", "point", P2, Pt, desc + " [translated]")
+    untouched(name + ":", "sign/weight", s1, s, desc + " [translated]")
+    untouched(name + ":", "preference", v1, v, desc + " [translated]")
+    if repeat:
+        d3 = fn(P1, s1, v1)
+        if not (isinstance(d3, numpy.ndarray) and isinstance(d, numpy.ndarray) and numpy.array_equal(d3, d, equal_nan=True)):
+            raise Violation(name + ":history-repeat", f"{desc}: first call {getattr(d, 'tolist', lambda: d)()}, the same call repeated on "
+                                                      f"the same arrays {getattr(d3, 'tolist', lambda: d3)()}")
     if not (isinstance(d, numpy.ndarray) and d.shape == (len(seq),)):
         raise Violation(name + ":shape", f"returned {type(d).__name__} of shape {getattr(d, 'shape', None)} for {len(seq)} points")
     dl = d.tolist()
@@ -459,7 +550,7 @@ def t_check(name, fn, G, seq, P, s, v, t, exp, const, sign, pref):
                         f"change to {d2.tolist()} when the front is translated by {t.tolist()}")
 
 
-def t_case(ctx, G, seq, sign, pref, tr, record=True, scaled=None, cache=None):
+def t_case(ctx, G, seq, sign, pref, tr, record=True, scaled=None, cache=None, form="f8C", repeat=False):
     """All three implementations on one (front, sign vector, preference vector), plain and translated by `tr`."""
     if scaled is None:
         scaled = t_scaled(G, seq, sign)
@@ -471,20 +562,20 @@ def t_case(ctx, G, seq, sign, pref, tr, record=True, scaled=None, cache=None):
     t = numpy.array([float(x) for x in tr[:G.k]])
     allok = True
     for name, fn in IMPLS.items():
-        ctx.transitions += 2
+        ctx.transitions += 3 if repeat else 2
         try:
-            t_check(name, fn, G, seq, P, s, v, t, exp, const, sign, pref)
+            t_check(name, fn, G, seq, P, s, v, t, exp, const, sign, pref, form, repeat)
         except Violation as e:
             # count every failing case, keep the smallest case per signature (what Ctx.merge would keep anyway)
             allok = False
             case = dict(layer="T", grid=G.name, seq=list(seq), sign=[float(x) for x in sign], pref=[float(x) for x in pref],
-                        tr=[float(x) for x in tr], impl=name, seed=ctx.seed)
+                        tr=[float(x) for x in tr], impl=name, form=form, repeat=repeat, seed=ctx.seed)
             ctx.violation(e.sig, e.detail, case)
         except Exception:
             allok = False
             case = dict(layer="T", grid=G.name, seq=list(seq), sign=[float(x) for x in sign], pref=[float(x) for x in pref],
-                        tr=[float(x) for x in tr], impl=name, seed=ctx.seed)
-            ctx.guard(lambda: t_check(name, fn, G, seq, P, s, v, t, exp, const, sign, pref), case=case, sig_prefix=name + ":")
+                        tr=[float(x) for x in tr], impl=name, form=form, repeat=repeat, seed=ctx.seed)
+            ctx.guard(lambda: t_check(name, fn, G, seq, P, s, v, t, exp, const, sign, pref, form, repeat), case=case, sig_prefix=name + ":")
     if record:
         key = tuple(round(x, 9) for x in exp)
         if cache is None or key not in cache:
@@ -526,10 +617,14 @@ def run_T(spec, ctx):
                 for pref in prefs:
                     cnt += 1
                     ctx.evaluations += 1
-                    ok, const = t_case(ctx, G, seq, sign, pref, TRANSL[cnt % 2], scaled=scaled, cache=ocache)
+                    form = FORMS[(cnt // 2) % 4]
+                    ctx.count("T:form:" + form)
+                    if cnt % 3 == 0:
+                        ctx.count("T:histories-with-a-repeated-call")
+                    ok, const = t_case(ctx, G, seq, sign, pref, TRANSL[cnt % 2], scaled=scaled, cache=ocache, form=form, repeat=(cnt % 3 == 0))
                     if ok:
                         ctx.traces += 1
-                    ctx.count("T:calls-per-implementation", 2)
+                    ctx.count("T:calls-per-implementation", 3 if cnt % 3 == 0 else 2)
                     if const:
                         ctx.count("T:cases-with-a-constant-objective")
                         if len(set(ms)) > 1:
@@ -602,6 +697,9 @@ def finalize(ctx, tier, seed):
             want = {("infeasible", "feasible"): {False}, ("feasible", "infeasible"): {True}}.get((a, b), {True, False})
             assert got == want, (a, b, got)      # counted by the reference's answer: both answers are demanded of the library
     assert c.get("T:calls-per-implementation", 0) > 1000
+    for f in FORMS:
+        assert c.get("F:form:" + f, 0) > 1000 and c.get("T:form:" + f, 0) > 100, f
+    assert c.get("F:histories-with-rescaled-weights", 0) > 1000 and c.get("T:histories-with-a-repeated-call", 0) > 1000
     from ..core import load_known, match_known
     known = load_known()
     unknown = [sg for sg in ctx.violations if not match_known(ID, sg, known)]
@@ -622,7 +720,9 @@ def replay(case, ctx):
     lay = case["layer"]
     if lay == "F":
         G = Grid.get(case["grid"], seed)
-        f_case(ctx, G, tuple(case["seq"]), W(G, tuple(Q(x) for x in case["wt"])), case["parity"])
+        wn = case.get("wt_next")
+        f_case(ctx, G, tuple(case["seq"]), W(G, tuple(Q(x) for x in case["wt"])), case["parity"], case.get("form", "f8C"),
+               None if wn is None else W(G, tuple(Q(x) for x in wn)))
     elif lay == "F2":
         G = Grid.get(case["grid"], seed)
         e1, _ = f_case(ctx, G, tuple(case["seq"]), W(G, tuple(Q(x) for x in case["wt"])), 1)
@@ -646,7 +746,7 @@ def replay(case, ctx):
         IMPLS = {case["impl"]: keep[case["impl"]]}
         try:
             t_case(ctx, G, tuple(case["seq"]), tuple(int(x) for x in case["sign"]), tuple(Q(x) for x in case["pref"]),
-                   tuple(Q(x) for x in case["tr"]), record=False)
+                   tuple(Q(x) for x in case["tr"]), record=False, form=case.get("form", "f8C"), repeat=case.get("repeat", False))
         finally:
             IMPLS = keep
     else:
